@@ -11,8 +11,16 @@ use fvm_shared::bigint::{BigInt, Integer};
 use num_traits::Zero;
 use std::collections::{BTreeMap, BTreeSet};
 
-/// protocol definition of sector power (fixed point 2^20, base multiplier 10, verified multiplier 100)
+/// size of a sector as implied by its own seal proof (falls back to the miner's configured size)
+pub fn own_size(miner_size: u64, s: &SectorView) -> u64 {
+    use fvm_shared::sector::RegisteredSealProof;
+    RegisteredSealProof::from(s.seal_proof).sector_size().map(|x| x as u64).unwrap_or(miner_size)
+}
+
+/// protocol definition of sector power (fixed point 2^20, base multiplier 10, verified multiplier 100);
+/// the size is the sector's own (by its seal proof), which must coincide with the miner's
 pub fn sector_power(size: u64, s: &SectorView) -> Pow {
+    let size = own_size(size, s);
     let duration = s.expiration - s.power_base_epoch;
     let spacetime = BigInt::from(size) * BigInt::from(duration);
     let qa = if spacetime.is_zero() {
